@@ -149,6 +149,53 @@ def rule_n3(repo):
     need(n_stores, 'first_order_match: no binding store inst[...] = ... found')
     return res
 
+def rule_n11(repo):
+    """N3 says a binding is stored only where the variable has none yet.  The test and the store are two statements: what
+    runs between them must not be able to bind the variable itself.  The matcher's own recursion can - the same head
+    variable may occur again inside the argument (?f (?f ?x)) - and a binding made there would be overwritten without being
+    compared: the pattern then "matches" a target it is no instance of.  So on no path from the test to the store is there
+    a recursive call of the matcher."""
+    res = RuleResult('C09.N11', 'nothing that can bind the variable runs between the test that it is unbound and the store of its binding', floor=3)
+    f = repo.func(MATCHER, 'first_order_match')
+    need(f.nested, 'first_order_match has no nested match function')
+    rec_names = set(f.nested) | {'first_order_match', 'first_order_match_list'}
+    for name, g in f.nested.items():
+        cfg = cfg_of(g.node)
+        for n in cfg.stmt_nodes(ast.Assign):
+            for t in n.ast.targets:
+                if not (isinstance(t, ast.Subscript) and is_name(t.value, 'inst')):
+                    continue
+                keytxt = src(t.slice)
+
+                def fresh(e, pol, keytxt=keytxt):
+                    cp = compare_parts(e)
+                    if not cp or not is_name(cp[2], 'inst') or src(cp[1]) != keytxt:
+                        return False
+                    return (cp[0] is ast.NotIn and pol) or (cp[0] is ast.In and not pol)
+                edges = cfg.establishing_edges(fresh)
+                if not edges:
+                    continue            # N3 reports that
+                byid = {x.id: x for x in cfg.nodes}
+                starts = [b for (nid, lab) in edges for (b, l2) in byid[nid].succ if l2 == lab]
+                fwd = cfg.reach_from(starts, skip_edges=edges)
+                between = []
+                for c in cfg.nodes:
+                    if c.id not in fwd or c is n or c.ast is None or c.kind not in ('stmt', 'test', 'return', 'iter'):
+                        continue
+                    if isinstance(c.ast, (ast.FunctionDef, ast.ClassDef)):
+                        continue
+                    calls = [x for h in cfg.headers(c) for x in ast.walk(h)
+                             if isinstance(x, ast.Call) and isinstance(x.func, ast.Name) and x.func.id in rec_names]
+                    if calls and n.id in cfg.reach_from([b for b, _l in c.succ], skip_edges=edges):
+                        between.append((c, calls[0]))
+                res.add('%s :: first_order_match.%s :: bind(%s)@%s :: test-then-store' % (MATCHER, name, keytxt, src(n.ast.value, 30)), not between,
+                        'no recursive call between `%s not in inst` and the store' % keytxt if not between else
+                        'line %d calls `%s` after `%s` was found unbound and before line %d stores its binding: if the variable occurs in what is matched '
+                        'there (?f (?f ?x) against p (q a)) the recursive call binds it (?f := q) and the store overwrites that binding (?f := p) without '
+                        'comparing - the match succeeds and the instantiated pattern p (p a) is not the target' % (
+                            between[0][0].lineno, src(between[0][1], 40), keytxt, n.lineno), '%s:%d' % (MATCHER, n.lineno))
+    return res
+
 
 def rule_n4(repo):
     """When the instantiation of `?F x` is computed from a target `f x`, dropping the last argument
@@ -398,4 +445,4 @@ def rule_n10(repo):
 
 def rules(repo):
     return [rule_n1(repo), rule_n2(repo), rule_n3(repo), rule_n4(repo), rule_n5(repo), rule_n6(repo), rule_n7(repo), rule_n8(repo), rule_n9(repo),
-            rule_n10(repo)]
+            rule_n10(repo), rule_n11(repo)]
